@@ -401,6 +401,14 @@ fn extreme_norms_case(x: &[f64]) -> Result<(), String> {
         let gp = v.norm_p(p);
         ensure!(gp.is_finite() && gp >= 0.0, "norm_p({}) = {:e} for finite data {:?}", p, gp, x);
         ensure!(ninf <= gp * (1.0 + 1e-13) && gp <= n1 * (1.0 + 1e-13), "inf-norm <= {}-norm <= 1-norm violated: {:e} {:e} {:e} for {:?}", p, ninf, gp, n1, x);
+        // the value itself, through the same exact power-of-two rescaling as the 2-norm reference
+        if ninf > 0.0 {
+            let k = ninf.log2().ceil() as i32;
+            let (h1, h2) = (2.0f64.powi(k / 2), 2.0f64.powi(k - k / 2));
+            let sp: f64 = x.iter().map(|t| (t.abs() / h1 / h2).powf(p)).sum();
+            let want = sp.powf(1.0 / p) * h1 * h2;
+            ensure!((gp - want).abs() <= 1e-12 * want + 2e-323, "norm_p({}) = {:e} expected {:e} for {:?}", p, gp, want, x);
+        }
     }
     // homogeneity under exact scalings that neither overflow nor underflow the data
     for al in [0.5, -4.0] {
@@ -762,6 +770,75 @@ fn main() {
                     acc.nontriv("entries whose squares underflow");
                 }
                 judge(acc, idx, || format!("extreme {:?}", x), || extreme_norms_case(&x));
+            },
+        );
+    }
+    {
+        // magnitudes at which squares / cubes are SUBNORMAL (neither lost nor accurate), subnormal entries themselves (the reciprocal of
+        // the largest entry overflows) and entries just below the overflow of the square
+        let b = 2.0f64;
+        let xb = [0.0, b.powi(-530), 3.0 * b.powi(-530), -b.powi(-515), b.powi(-352), 3e-310, -4e-310, 5e-324, b.powi(511)];
+        let bmax = ctx.pick(3u32, 5u32);
+        let total: u64 = (1..=bmax).map(|k| 9u64.pow(k)).sum();
+        ctx.lattice(
+            "Vector<f64> norms in the subnormal band: all vectors of length 1..3 (thorough 1..5) over {0,2^-530,3*2^-530,-2^-515,2^-352,3e-310,-4e-310,5e-324,2^511}",
+            total,
+            |idx| format!("{}", idx),
+            |idx, acc| {
+                let mut i = idx;
+                let mut len = 1u32;
+                while i >= 9u64.pow(len) {
+                    i -= 9u64.pow(len);
+                    len += 1;
+                }
+                let x: Vec<f64> = (0..len).map(|_| {
+                    let v = xb[(i % 9) as usize];
+                    i /= 9;
+                    v
+                }).collect();
+                if x.iter().all(|t| t.abs() < 1e-308) && x.iter().any(|t| *t != 0.0) {
+                    acc.nontriv("largest entry subnormal");
+                } else {
+                    acc.nontriv("powers in the subnormal band");
+                }
+                judge(acc, idx, || format!("band {:?}", x), || extreme_norms_case(&x));
+            },
+        );
+        // Complex<f64> vectors of extreme modulus, the largest entry at every position
+        let c = |re: f64, im: f64| Cmplx::new(re, im);
+        let cl = [c(0.0, 0.0), c(1.0, 0.0), c(1e200, 0.0), c(3e200, -4e200), c(0.0, 2e200), c(1e-200, 0.0), c(-3e-200, 4e-200), c(b.powi(-530), b.powi(-530))];
+        let cmax = ctx.pick(3u32, 4u32);
+        let totalc: u64 = (1..=cmax).map(|k| 8u64.pow(k)).sum();
+        ctx.lattice(
+            "Vector<Complex<f64>> norm_inf / norm_1 at extreme modulus: all vectors of length 1..3 (thorough 1..4) over {0,1,1e200,(3-4i)e200,2e200i,1e-200,(-3+4i)e-200,2^-530(1+i)}",
+            totalc,
+            |idx| format!("{}", idx),
+            |idx, acc| {
+                let mut i = idx;
+                let mut len = 1u32;
+                while i >= 8u64.pow(len) {
+                    i -= 8u64.pow(len);
+                    len += 1;
+                }
+                let x: Vec<Cmplx> = (0..len).map(|_| {
+                    let v = cl[(i % 8) as usize];
+                    i /= 8;
+                    v
+                }).collect();
+                acc.nontriv("complex vector of extreme modulus");
+                judge(acc, idx, || format!("complex extreme {:?}", x), || {
+                    let v = Vector::create(x.clone());
+                    let mods: Vec<f64> = x.iter().map(|z| z.real.hypot(z.imag)).collect();
+                    let want_inf = mods.iter().fold(0.0f64, |m, t| m.max(*t));
+                    let got = v.norm_inf();
+                    ensure!((got - want_inf).abs() <= 4.0 * f64::EPSILON * want_inf, "norm_inf = {:e} but the largest modulus is {:e}", got, want_inf);
+                    let want_1: f64 = mods.iter().sum();
+                    if want_1.is_finite() {
+                        let g1 = v.norm_1();
+                        ensure!((g1.real - want_1).abs() <= 8.0 * f64::EPSILON * want_1 && g1.imag == 0.0, "norm_1 = {:?} but the sum of moduli is {:e}", g1, want_1);
+                    }
+                    Ok(())
+                });
             },
         );
     }
